@@ -402,7 +402,11 @@ fn chars_strategy() -> BoxedStrategy<String> {
 /// progress characters that are grapheme clusters of several code points, two columns each (only a
 /// build with `improved_unicode` accepts them as one character each)
 #[cfg(feature = "improved_unicode")]
-const CLUSTERS: [&str; 6] = ["\u{2600}\u{fe0f}", "\u{2764}\u{fe0f}", "\u{1f44d}\u{1f3fd}", "\u{1f1e9}\u{1f1ea}", "\u{270c}\u{fe0f}", "\u{1f44b}\u{1f3fb}"];
+const CLUSTERS: [&str; 10] = [
+    "\u{2600}\u{fe0f}", "\u{2764}\u{fe0f}", "\u{1f44d}\u{1f3fd}", "\u{1f1e9}\u{1f1ea}", "\u{270c}\u{fe0f}", "\u{1f44b}\u{1f3fb}",
+    // a letter with a spacing mark (one extended grapheme cluster, two columns): Thai, Devanagari
+    "\u{e01}\u{e33}", "\u{e04}\u{e33}", "\u{915}\u{93e}", "\u{928}\u{93f}",
+];
 
 fn chars_strategy_visible() -> BoxedStrategy<String> {
     #[cfg(feature = "improved_unicode")]
@@ -561,6 +565,59 @@ fn sweep_one_len(set: &str, n: usize, len: u64) -> Result<(), (Value, Fail)> {
     Ok(())
 }
 
+// ------------------------------------------------------------------------------------------
+// console::Term handed over as a TermLike
+
+#[derive(Debug, Clone, Serialize, Deserialize)]
+pub struct ConsoleTermCase {
+    len: u64,
+    pos: u64,
+    /// 0 "{wide_bar}", 1 "{wide_bar} {pos}/{len}", 2 "[{wide_bar}]"
+    tpl: u8,
+}
+
+/// `ProgressDrawTarget::term_like(Box::new(console::Term))`: the width the TermLike impl of `Term` reports
+/// is the number of columns. The Term writes to an anonymous file; console falls back to 24 rows x 80
+/// columns for it, so the line with the wide_bar is 80 columns wide.
+fn run_console_term(c: &ConsoleTermCase) -> CaseResult {
+    use std::io::{Read, Seek};
+    use std::os::fd::FromRawFd;
+    let fd = unsafe { libc::memfd_create(b"vh-c13\0".as_ptr() as *const libc::c_char, 0) };
+    ensure!(fd >= 0, "harness", "memfd_create failed");
+    let mut file = unsafe { std::fs::File::from_raw_fd(fd) };
+    let dup = || file.try_clone().map_err(|e| Fail::new("harness", e.to_string()));
+    let term = console::Term::read_write_pair(dup()?, dup()?);
+    let (rows, cols) = term.size();
+    ensure!((rows, cols) == (24, 80), "harness", "console reports {rows}x{cols} for a file");
+    let tpl = ["{wide_bar}", "{wide_bar} {pos}/{len}", "[{wide_bar}]"][c.tpl as usize % 3];
+    let r = catch(|| {
+        let pb = ProgressBar::with_draw_target(Some(c.len), ProgressDrawTarget::term_like(Box::new(term)));
+        pb.set_style(ProgressStyle::with_template(tpl).unwrap().progress_chars("#>-"));
+        pb.set_position(c.pos);
+        pb.tick();
+        pb.abandon();
+    });
+    r.map_err(|p| Fail::new("panic", format!("drawing {tpl:?} to a console::Term used as TermLike panicked: {p}")))?;
+    let mut bytes = vec![];
+    let _ = file.rewind();
+    file.read_to_end(&mut bytes).map_err(|e| Fail::new("harness", e.to_string()))?;
+    let text = String::from_utf8_lossy(&bytes).into_owned();
+    let plain = console::strip_ansi_codes(&text).into_owned();
+    let last = plain.split(|ch| ch == '\n' || ch == '\r').filter(|l| !l.trim().is_empty()).last().unwrap_or("").to_string();
+    let w = console::measure_text_width(&last);
+    ensure!(
+        w == cols as usize,
+        "wide_bar_width",
+        "template {tpl:?} (pos {}, len {}) on a console::Term of {rows} rows x {cols} columns handed over with term_like(): the line is {w} columns wide: {last:?}",
+        c.pos,
+        c.len
+    );
+    let mut v = Verdict::default();
+    v.nontrivial = true;
+    v.label("console_term_as_term_like");
+    Ok(v)
+}
+
 pub fn property() -> Property {
     let w = default_workers();
     Property {
@@ -585,7 +642,7 @@ pub fn property() -> Property {
             }
             parts.push(Box::new(Gen::<GeoCase> {
                 name: if cfg!(feature = "improved_unicode") { "random_improved_unicode" } else { "random" },
-                rule: "random distinct character sets of 2..=10 clusters (1 or 2 columns; in the build with improved_unicode two fifths of the sets consist of 2-5 grapheme clusters of several code points each - emoji with variation selector or skin tone, flags), width 0..=65535, (len,pos) incl. powers of two, u64::MAX, unknown length; 35% through literal{wide_bar}literal on terminals 1..300 columns (line width == W - (avail mod c)); the template set before or after the characters (with_template().progress_chars(), progress_chars().template(), style().template() on the bar); a quarter of the bars abandoned or finished-then-resized before the frame; non-trivial = 0 < pos < len with >= 2 cells",
+                rule: "random distinct character sets of 2..=10 clusters (1 or 2 columns; in the build with improved_unicode two fifths of the sets consist of 2-5 grapheme clusters of several code points each - emoji with variation selector or skin tone, flags, letters with a spacing mark), width 0..=65535, (len,pos) incl. powers of two, u64::MAX, unknown length; 35% through literal{wide_bar}literal on terminals 1..300 columns (line width == W - (avail mod c)); the template set before or after the characters (with_template().progress_chars(), progress_chars().template(), style().template() on the bar); a quarter of the bars abandoned or finished-then-resized before the frame; non-trivial = 0 < pos < len with >= 2 cells",
                 strategy: |_| geo_strategy(),
                 cases: |t| t.pick(60_000, 1_000_000),
                 run: run_geo,
@@ -594,6 +651,19 @@ pub fn property() -> Property {
                 workers: w,
                 decode: None,
             }));
+            if !cfg!(feature = "improved_unicode") {
+                parts.push(Box::new(Gen::<ConsoleTermCase> {
+                    name: "console_term",
+                    rule: "a console::Term (over an anonymous file: 24 rows x 80 columns by console's fallback) handed over with ProgressDrawTarget::term_like(); {wide_bar} alone, with a suffix and in brackets, len 0..1000, pos 0..len+2: the line written is exactly 80 columns wide; non-trivial = every case",
+                    strategy: |_| (0u64..1000, 0u64..1002, 0u8..3).prop_map(|(len, pos, tpl)| ConsoleTermCase { len, pos: pos.min(len + 2), tpl }).boxed(),
+                    cases: |t| t.pick(200, 5_000),
+                    run: run_console_term,
+                    signature: no_signature,
+                    essential: &["console_term_as_term_like"],
+                    workers: w,
+                    decode: None,
+                }));
+            }
             parts
         },
     }
